@@ -268,7 +268,7 @@ impl fmt::Debug for F {
 pub const MAX_LEAVES: u32 = 192;
 pub const MAX_FN: u16 = 112;
 pub const MAX_PRED: u16 = 40;
-pub const MAX_ARITY: usize = 4;
+pub const MAX_ARITY: usize = 6;
 
 /// Declarations sent once to each solver process.
 pub fn preamble() -> String {
